@@ -84,6 +84,7 @@ type c50tree struct {
 	inFiles  []*c50node // regular files located under the root
 	outFiles []*c50node // regular files outside (sentinels and the symlink target)
 	nfile    int
+	zNames   []string // files of the size x extension grid (directory z)
 	t        *testing.T
 }
 
@@ -182,8 +183,28 @@ func c50build(t *testing.T, base string, depth int) *c50tree {
 		}
 		seen[len(n.data)] = n.rel
 	}
+	// size x extension grid: sizes around every buffer boundary visible in mod_static / net/http /
+	// io (sniff length 512, bufio 4096, io.Copy 32 KiB) x extension classes of processContentType
+	// (module mime table, Go mime package only, unknown, none, upper case, double, trailing dot);
+	// the extension-less and .css files also get a precompressed sibling of a different size.
+	// Sizes repeat across extensions on purpose; the oracle for these paths knows the named file.
+	z := tr.mkdir(root, "z", false)
+	for _, size := range c50sizes {
+		for _, ext := range c50exts {
+			name := fmt.Sprintf("n%d%s", size, ext)
+			tr.mkfile(z, name, size, false)
+			tr.zNames = append(tr.zNames, name)
+			if ext == "" || ext == ".css" {
+				tr.mkfile(z, name+".gz", size+3, false)
+				tr.zNames = append(tr.zNames, name+".gz")
+			}
+		}
+	}
 	return tr
 }
+
+var c50sizes = []int{0, 1, 2, 511, 512, 513, 1024, 4095, 4096, 4097, 8192, 32767, 32768, 32769, 65537}
+var c50exts = []string{".html", ".HTML", ".css", ".PNG", ".blob42", "", ".tar.gz", "."}
 
 // c50ref is the reference verdict for one decoded request path.
 type c50ref struct {
@@ -621,6 +642,58 @@ func c50head(b []byte) string {
 	return string(b)
 }
 
+// runPath runs one request path under every method and configuration.
+func (c *c50run) runPath(mode, label, raw string, special bool, methods []string, cfgs []c50cfg, tag int) {
+	r := c.r
+	for _, method := range methods {
+		for _, cf := range cfgs {
+			id := ""
+			mk := func() string {
+				id = vk.Key("C50", mode, strconv.Quote(method), cf.name, strconv.Quote(label), tag)
+				return id
+			}
+			if !r.CaseN(mk) {
+				continue
+			}
+			if id == "" {
+				mk()
+			}
+			var o c50obs
+			var oc string
+			if panicked, val := vk.Guard(func() {
+				o = c.exec(mode, method, raw, cf)
+				oc = c.judge(id, mode, method, raw, cf, o)
+			}); panicked {
+				r.Violation("panic:"+c50class(raw)+":"+vk.PanicSite(val), id, "mod_static panicked (no response): "+val)
+				oc = "VIOLATION:panic"
+			}
+			c.out[oc]++
+			if special && !o.rejected && (method == "GET" || method == "HEAD") {
+				c.nontriv++
+			}
+			if !c.sampled[oc] && len(c.sampled) < 40 {
+				c.sampled[oc] = true
+				r.Sample(map[string]interface{}{"mode": mode, "method": method, "path": label, "cfg": cf.name,
+					"status": o.status, "content_length": o.cl, "content_encoding": o.ce, "body_bytes": len(o.body), "outcome": oc})
+			}
+		}
+	}
+}
+
+// sizeFamily requests every file of the size x extension grid (tree directory z) by its own
+// name, once plainly and once through a dot-segment detour, under every method/configuration.
+func (c *c50run) sizeFamily(mode string, methods []string, cfgs []c50cfg, idx *int) {
+	for _, name := range c.tr.zNames {
+		for _, pre := range []string{"/z/", "/d/../z/./"} {
+			*idx++
+			if !c.r.Mine(*idx) || c.r.Expired("sizes") {
+				continue
+			}
+			c.runPath(mode, pre+name, pre+name, true, methods, cfgs, -1)
+		}
+	}
+}
+
 // family enumerates every path of 0..maxSeg segments over syms (x methods x cfgs).
 func (c *c50run) family(mode string, syms []c50sym, maxSeg int, methods []string, cfgs []c50cfg, idx *int) {
 	r := c.r
@@ -644,40 +717,7 @@ func (c *c50run) family(mode string, syms []c50sym, maxSeg int, methods []string
 				lb.WriteByte('/')
 				rb.WriteByte('/')
 			}
-			label, raw := lb.String(), rb.String()
-			for _, method := range methods {
-				for _, cf := range cfgs {
-					id := ""
-					mk := func() string {
-						id = vk.Key("C50", mode, strconv.Quote(method), cf.name, strconv.Quote(label), len(syms))
-						return id
-					}
-					if !r.CaseN(mk) {
-						continue
-					}
-					if id == "" {
-						mk()
-					}
-					var o c50obs
-					var oc string
-					if panicked, val := vk.Guard(func() {
-						o = c.exec(mode, method, raw, cf)
-						oc = c.judge(id, mode, method, raw, cf, o)
-					}); panicked {
-						r.Violation("panic:"+c50class(raw)+":"+vk.PanicSite(val), id, "mod_static panicked (no response): "+val)
-						oc = "VIOLATION:panic"
-					}
-					c.out[oc]++
-					if special && !o.rejected && (method == "GET" || method == "HEAD") {
-						c.nontriv++
-					}
-					if !c.sampled[oc] && len(c.sampled) < 40 {
-						c.sampled[oc] = true
-						r.Sample(map[string]interface{}{"mode": mode, "method": method, "path": label, "cfg": cf.name,
-							"status": o.status, "content_length": o.cl, "content_encoding": o.ce, "body_bytes": len(o.body), "outcome": oc})
-					}
-				}
-			}
+			c.runPath(mode, lb.String(), rb.String(), special, methods, cfgs, len(syms))
 		}
 		if len(segs) == maxSeg {
 			return
@@ -758,10 +798,13 @@ func TestVerifC50(t *testing.T) {
 	}
 	r.Set("bounds", fmt.Sprintf("wire/core: %d symbols, <=%d segments; wire/full: %d symbols, <=%d segments; direct: %d symbols, <=%d segments; methods wire=%v direct=%q; %d configurations",
 		len(core), coreN, len(full), fullN, len(direct), dirN, methods, dmethods, len(cfgs)))
+	r.Set("size_grid", fmt.Sprintf("sizes %v x extensions %q (+ .gz siblings for \"\" and .css), each requested as /z/NAME and /d/../z/./NAME in wire and direct mode", c50sizes, c50exts))
 	r.Set("tree_files_under_root", len(tr.inFiles))
 	r.Set("tree_files_outside", len(tr.outFiles))
 
 	idx := 0
+	c.sizeFamily("wire", methods, cfgs, &idx)
+	c.sizeFamily("direct", dmethods, cfgs, &idx)
 	c.family("wire", core, coreN, methods, cfgs, &idx)
 	c.family("wire", full, fullN, methods, cfgs, &idx)
 	c.family("direct", direct, dirN, dmethods, cfgs, &idx)
